@@ -831,7 +831,7 @@ class JnpArangePlugin(PrimitiveLeafPlugin):
                     stop = stop_kw
                     step = 1 if step_kw is None else step_kw
                 elif num_args == 1:
-                    if start_kw is not None or stop_kw is not None:
+                    if start_kw is not None:
                         return orig(
                             *args,
                             dtype=dtype_param,
@@ -839,8 +839,13 @@ class JnpArangePlugin(PrimitiveLeafPlugin):
                             stop=stop_kw,
                             step=step_kw,
                         )
-                    start = 0
-                    stop = args[0]
+                    if stop_kw is not None:
+                        # jnp.arange(start, stop=...): the positional argument is the start
+                        start = args[0]
+                        stop = stop_kw
+                    else:
+                        start = 0
+                        stop = args[0]
                     step = 1 if step_kw is None else step_kw
                 elif num_args == 2:
                     if start_kw is not None or stop_kw is not None:
